@@ -44,7 +44,7 @@ def run_c19(prop, spec, tier, seed):
         fn = fn_at(lineno)
         c = {"contract": fn, "status": kind, "message": msg[:400]}
         if kind == "error":
-            mm = re.search(r"when calling (\w+)\((.*)\)\s*(?:\(which returns.*)?$", msg)
+            mm = re.search(r"when calling (\w+)\((.*?)\)(?: \(which returns .*\))?$", msg)
             replayed = None
             if mm:
                 try:
@@ -58,12 +58,13 @@ def run_c19(prop, spec, tier, seed):
             if replayed and replayed.get("rc") == 1:
                 viol += 1
                 exit_code = 1
-                os.makedirs(os.path.join(VERIF, "evidence", "replay"), exist_ok=True)
+                import runner as _r
+                os.makedirs(os.path.join(_r.EVID, "replay"), exist_ok=True)
                 body = {"property": prop, "engine": "crosshair", "contract": mm.group(1), "args": replayed["args"],
                         "message": msg, "replay": replayed,
                         "replay_cmd": "%s %s %s '%s'" % (PY, CONTRACTS, mm.group(1), json.dumps(replayed["args"]))}
                 h = hashlib.sha1(json.dumps(body["args"]).encode()).hexdigest()[:10]
-                path = os.path.join(VERIF, "evidence", "replay", "%s-%s-%s.json" % (prop, mm.group(1), h))
+                path = os.path.join(_r.EVID, "replay", "%s-%s-%s.json" % (prop, mm.group(1), h))
                 json.dump(body, open(path, "w"), indent=1)
                 lines.append("VIOLATION property=%s replay=%s" % (prop, path))
                 lines.append("  " + msg[:300])
